@@ -232,6 +232,10 @@ def check_C04(res, replay):
             lines = harness_lines(stream, [], res)
             if lines is not None:
                 L.compare_lines(lines, model, res, stream)
+        # the scripting interface's optimise(): only its frame oracle ([C04]) belongs to this property
+        lines = harness_lines("wrapper", [], res)
+        if lines is not None:
+            L.compare_lines(lines, "wrapper", res, "wrapper", only_tag="[C04]")
         res.cases += int(res.stats.get("opt.optimisations", "0"))
         res.distinct += int(res.stats.get("opt.moved", "0"))
     return L.finish(res, "proof", "lake build OptRs.Props.C04 OptRs.Props.C05 + #print axioms audit",
